@@ -1,3 +1,487 @@
 package main
 
-func (x *seqExec) doListing(seed uint64) {}
+import (
+	"fmt"
+	"sort"
+	"strconv"
+	"strings"
+)
+
+// Reference recomputation of the Merkle directory listing from the model content
+// (C08 second oracle, C15 upper levels). Formulas are the cross-replica contract of beansdb:
+// leaf hash = sum over live items of vhash * (keyhash >> 32) in 16-bit arithmetic; inner node
+// hash = fold of child hashes, multiplied by 97 before each addition when the node holds more
+// than 256 keys; upper tree (above bucket level) always multiplies by 97.
+
+type refItem struct {
+	KeyHash uint64
+	VHash   uint16
+	Ver     int32
+}
+
+type listEntry struct {
+	// node form
+	Child int
+	Hash  uint16
+	Count uint32
+	// item form
+	Item refItem
+}
+
+type listing struct {
+	Kind  string // "nodes", "items", "empty"
+	Nodes []listEntry
+	Items []refItem
+}
+
+func parseListing(body []byte) (listing, error) {
+	var l listing
+	if len(body) == 0 {
+		l.Kind = "empty"
+		return l, nil
+	}
+	if body[len(body)-1] != '\n' {
+		return l, fmt.Errorf("listing does not end with a newline")
+	}
+	lines := strings.Split(strings.TrimSuffix(string(body), "\n"), "\n")
+	for _, ln := range lines {
+		f := strings.Split(ln, " ")
+		if len(f) != 3 {
+			return l, fmt.Errorf("bad listing line %q", ln)
+		}
+		if strings.HasSuffix(f[0], "/") {
+			c, e1 := strconv.ParseUint(strings.TrimSuffix(f[0], "/"), 16, 8)
+			h, e2 := strconv.ParseUint(f[1], 10, 16)
+			n, e3 := strconv.ParseUint(f[2], 10, 32)
+			if e1 != nil || e2 != nil || e3 != nil {
+				return l, fmt.Errorf("bad node line %q", ln)
+			}
+			l.Nodes = append(l.Nodes, listEntry{Child: int(c), Hash: uint16(h), Count: uint32(n)})
+		} else {
+			if len(f[0]) != 16 {
+				return l, fmt.Errorf("bad item line %q", ln)
+			}
+			kh, e1 := strconv.ParseUint(f[0], 16, 64)
+			vh, e2 := strconv.ParseUint(f[1], 10, 16)
+			v, e3 := strconv.ParseInt(f[2], 10, 32)
+			if e1 != nil || e2 != nil || e3 != nil {
+				return l, fmt.Errorf("bad item line %q", ln)
+			}
+			l.Items = append(l.Items, refItem{kh, uint16(vh), int32(v)})
+		}
+	}
+	switch {
+	case len(l.Nodes) > 0 && len(l.Items) > 0:
+		return l, fmt.Errorf("listing mixes node and item lines")
+	case len(l.Nodes) > 0:
+		l.Kind = "nodes"
+		if len(l.Nodes) != 16 {
+			return l, fmt.Errorf("node listing with %d lines", len(l.Nodes))
+		}
+		for i, n := range l.Nodes {
+			if n.Child != i {
+				return l, fmt.Errorf("node listing out of order")
+			}
+		}
+	default:
+		l.Kind = "items"
+	}
+	return l, nil
+}
+
+// refTree computes node summaries from a set of live items for one bucket.
+type refTree struct {
+	cfg     *SimCfg
+	items   []refItem // live items of the whole store
+	hashOf  func(key []byte) uint64
+}
+
+func digitsOf(h uint64, n int) []int {
+	d := make([]int, n)
+	for i := 0; i < n; i++ {
+		d[i] = int((h >> uint(4*(15-i))) & 0xf)
+	}
+	return d
+}
+
+func hasPrefix(h uint64, prefix []int) bool {
+	for i, p := range prefix {
+		if int((h>>uint(4*(15-i)))&0xf) != p {
+			return false
+		}
+	}
+	return true
+}
+
+// nodeSummary returns (hash, count) of the bucket-tree node addressed by prefix (len >= depth).
+func (t *refTree) nodeSummary(prefix []int) (uint16, uint32) {
+	depth := t.cfg.depth()
+	leafLevel := depth + t.cfg.TreeHeight - 1 // number of hex digits that address a leaf
+	any := false
+	for _, it := range t.items {
+		if hasPrefix(it.KeyHash, prefix) {
+			any = true
+			break
+		}
+	}
+	if !any {
+		return 0, 0
+	}
+	if len(prefix) >= leafLevel {
+		var h uint16
+		var c uint32
+		for _, it := range t.items {
+			if hasPrefix(it.KeyHash, prefix[:leafLevel]) {
+				h += it.VHash * uint16(it.KeyHash>>32)
+				c++
+			}
+		}
+		return h, c
+	}
+	var hs [16]uint16
+	var count uint32
+	for i := 0; i < 16; i++ {
+		ch, cc := t.nodeSummary(append(append([]int{}, prefix...), i))
+		hs[i] = ch
+		count += cc
+	}
+	var h uint16
+	for i := 0; i < 16; i++ {
+		if count > 256 {
+			h *= 97
+		}
+		h += hs[i]
+	}
+	return h, count
+}
+
+// upperSummary returns (hash,count) of a node above (or at) bucket level.
+func (t *refTree) upperSummary(prefix []int) (uint16, uint32) {
+	depth := t.cfg.depth()
+	if len(prefix) == depth {
+		b := 0
+		for _, p := range prefix {
+			b = b*16 + p
+		}
+		if !t.cfg.served(b) {
+			return 0, 0
+		}
+		return t.nodeSummary(prefix)
+	}
+	var h uint16
+	var c uint32
+	for i := 0; i < 16; i++ {
+		ch, cc := t.upperSummary(append(append([]int{}, prefix...), i))
+		h *= 97
+		h += ch
+		c += cc
+	}
+	return h, c
+}
+
+// expect computes the reference listing for a prefix. tombOK is the set of key hashes that
+// may appear as tombstone entries.
+func (t *refTree) expect(prefix []int, threshold uint32) listing {
+	depth := t.cfg.depth()
+	var l listing
+	if len(prefix) < depth {
+		l.Kind = "nodes"
+		for i := 0; i < 16; i++ {
+			h, c := t.upperSummary(append(append([]int{}, prefix...), i))
+			l.Nodes = append(l.Nodes, listEntry{Child: i, Hash: h, Count: c})
+		}
+		return l
+	}
+	b := 0
+	for _, p := range prefix[:depth] {
+		b = b*16 + p
+	}
+	if !t.cfg.served(b) {
+		l.Kind = "empty"
+		return l
+	}
+	leafLevel := depth + t.cfg.TreeHeight - 1
+	_, count := t.nodeSummary(prefix)
+	if len(prefix) >= leafLevel || count < threshold {
+		l.Kind = "items"
+		for _, it := range t.items {
+			if hasPrefix(it.KeyHash, prefix) {
+				l.Items = append(l.Items, it)
+			}
+		}
+		return l
+	}
+	l.Kind = "nodes"
+	for i := 0; i < 16; i++ {
+		h, c := t.nodeSummary(append(append([]int{}, prefix...), i))
+		l.Nodes = append(l.Nodes, listEntry{Child: i, Hash: h, Count: c})
+	}
+	return l
+}
+
+func prefixString(p []int) string {
+	var b strings.Builder
+	for _, d := range p {
+		fmt.Fprintf(&b, "%x", d)
+	}
+	return b.String()
+}
+
+// liveItems returns the definite live items of the model; ok=false if some key's liveness
+// or version is still ambiguous.
+func (x *seqExec) liveItems() (items []refItem, tomb map[uint64]bool, ok bool) {
+	tomb = map[uint64]bool{}
+	ok = true
+	hf := refKeyHash
+	if hashOverride != nil {
+		hf = hashOverride
+	}
+	for _, km := range x.m.Keys {
+		if km.Unserved {
+			continue
+		}
+		kh := hf(km.Key)
+		if km.Collide {
+			ok = false
+			continue
+		}
+		if len(km.Alts) != 1 {
+			// tombstone-or-absent is fine (neither is live); anything else is ambiguous
+			live := false
+			for _, a := range km.Alts {
+				if a.live() {
+					live = true
+				}
+			}
+			if live {
+				ok = false
+			}
+			tomb[kh] = true
+			continue
+		}
+		a := km.Alts[0]
+		switch {
+		case a.live():
+			items = append(items, refItem{kh, refVHash(a.Val), a.Ver})
+		default:
+			tomb[kh] = true
+		}
+	}
+	return
+}
+
+// fetchListing sends "get @<prefix>" and parses the reply.
+func (x *seqExec) fetchListing(prefix string) (listing, bool) {
+	r := x.reply(cmdGet("@" + prefix))
+	if x.viol != nil {
+		return listing{}, false
+	}
+	if r.Status != "END" || len(r.Items) > 1 {
+		x.failSub("R-status", replySub("list", r), fmt.Sprintf("get @%s answered %s", prefix, r))
+		return listing{}, false
+	}
+	if len(r.Items) == 0 {
+		return listing{Kind: "empty"}, true
+	}
+	l, err := parseListing(r.Items[0].Bytes)
+	if err != nil {
+		x.failSub("R-listing-malformed", "", fmt.Sprintf("get @%s: %v: %q", prefix, err, trunc(string(r.Items[0].Bytes), 200)))
+		return listing{}, false
+	}
+	return l, true
+}
+
+// compareListing checks one listing against the reference.
+func (x *seqExec) compareListing(prefix []int, got, want listing, tomb map[uint64]bool) {
+	ps := prefixString(prefix)
+	if want.Kind == "items" && len(want.Items) == 0 && got.Kind == "empty" {
+		return
+	}
+	if want.Kind == "empty" && got.Kind == "items" && len(got.Items) == 0 {
+		return
+	}
+	if got.Kind != want.Kind {
+		// an item-level listing with only tombstones vs "empty"
+		if want.Kind == "items" && got.Kind == "items" {
+			// fallthrough
+		} else {
+			x.failSub("R-listing-recompute", "kind", fmt.Sprintf("get @%s returned a %s listing, the reference computes a %s listing (%d live items under the prefix)", ps, got.Kind, want.Kind, len(want.Items)))
+			return
+		}
+	}
+	switch want.Kind {
+	case "nodes":
+		for i := range want.Nodes {
+			g, w := got.Nodes[i], want.Nodes[i]
+			if g.Count != w.Count {
+				x.failSub("R-listing-count", "", fmt.Sprintf("get @%s child %x: count %d, %d live keys under it in the model", ps, i, g.Count, w.Count))
+				return
+			}
+			if g.Hash != w.Hash {
+				x.failSub("R-listing-recompute", "hash", fmt.Sprintf("get @%s child %x: hash %d, the reference aggregation gives %d (count %d)", ps, i, g.Hash, w.Hash, w.Count))
+				return
+			}
+		}
+	case "items":
+		wantSet := map[uint64]refItem{}
+		for _, it := range want.Items {
+			wantSet[it.KeyHash] = it
+		}
+		seen := map[uint64]bool{}
+		for _, it := range got.Items {
+			if seen[it.KeyHash] {
+				x.failSub("R-listing-ghost", "dup", fmt.Sprintf("get @%s lists key hash %016x twice", ps, it.KeyHash))
+				return
+			}
+			seen[it.KeyHash] = true
+			if !hasPrefix(it.KeyHash, prefix) {
+				x.failSub("R-listing-ghost", "prefix", fmt.Sprintf("get @%s lists key hash %016x which is not under the prefix", ps, it.KeyHash))
+				return
+			}
+			w, ok := wantSet[it.KeyHash]
+			if it.Ver < 0 {
+				if ok {
+					x.failSub("R-listing-recompute", "tombstone-for-live", fmt.Sprintf("get @%s lists %016x as deleted (ver %d) but the key is live in the model (ver %d)", ps, it.KeyHash, it.Ver, w.Ver))
+					return
+				}
+				if !tomb[it.KeyHash] {
+					x.failSub("R-listing-ghost", "tombstone", fmt.Sprintf("get @%s lists a tombstone for unknown key hash %016x", ps, it.KeyHash))
+					return
+				}
+				continue
+			}
+			if !ok {
+				x.failSub("R-listing-ghost", "live", fmt.Sprintf("get @%s lists a live entry %016x (ver %d vhash %d) for a deleted or unknown key", ps, it.KeyHash, it.Ver, it.VHash))
+				return
+			}
+			if it.VHash != w.VHash || it.Ver != w.Ver {
+				x.failSub("R-listing-recompute", "item", fmt.Sprintf("get @%s entry %016x: vhash %d ver %d, model vhash %d ver %d", ps, it.KeyHash, it.VHash, it.Ver, w.VHash, w.Ver))
+				return
+			}
+		}
+		for kh := range wantSet {
+			if !seen[kh] {
+				x.failSub("R-listing-count", "missing", fmt.Sprintf("get @%s does not list the live key hash %016x", ps, kh))
+				return
+			}
+		}
+	}
+}
+
+// doListing: narrow the model by reading every key, then compare listings of drawn prefixes
+// (all lengths 0..16) with the reference recomputation.
+func (x *seqExec) doListing(seed uint64) {
+	if len(x.plan.Groups) > 0 {
+		return
+	}
+	hf := refKeyHash
+	if hashOverride != nil {
+		hf = hashOverride
+	}
+	x.verifyAll("pre-listing", false)
+	if x.viol != nil {
+		return
+	}
+	items, tomb, ok := x.liveItems()
+	if !ok {
+		x.out.probe("listing-skipped-ambiguous-model")
+		return
+	}
+	t := &refTree{cfg: &x.plan.Cfg, items: items}
+	r := NewRng(seed)
+	var prefixes [][]int
+	prefixes = append(prefixes, []int{})
+	// prefixes along the paths of existing keys (all lengths) and a few random ones
+	for _, km := range x.m.Keys {
+		if r.Bool(1, 2) {
+			d := digitsOf(hf(km.Key), 16)
+			prefixes = append(prefixes, d[:r.Range(0, 16)])
+		}
+	}
+	for i := 0; i < 3; i++ {
+		n := r.Range(0, 5)
+		p := make([]int, n)
+		for j := range p {
+			p[j] = r.Intn(16)
+		}
+		prefixes = append(prefixes, p)
+	}
+	for _, p := range prefixes {
+		got, ok := x.fetchListing(prefixString(p))
+		if !ok {
+			return
+		}
+		want := t.expect(p, x.plan.Cfg.ListKeyThreshold)
+		x.compareListing(p, got, want, tomb)
+		if x.viol != nil {
+			return
+		}
+		x.out.probe("listing-compared:" + want.Kind)
+		if want.Kind == "items" && len(want.Items) >= 100 {
+			x.out.probe("leaf>=100-items(C-search)")
+		}
+		if want.Kind == "nodes" {
+			var n uint32
+			for _, e := range want.Nodes {
+				n += e.Count
+			}
+			if n > 256 {
+				x.out.probe("node>256-keys(x97-fold)")
+			}
+		}
+		if len(p) < x.plan.Cfg.depth() {
+			x.out.probe("upper-listing")
+		}
+	}
+}
+
+// walkListing fetches the complete listing tree from the empty prefix down (C08 pairwise).
+func (x *seqExec) walkListing(max int) map[string]listing {
+	out := map[string]listing{}
+	queue := []string{""}
+	for len(queue) > 0 && len(out) < max {
+		p := queue[0]
+		queue = queue[1:]
+		l, ok := x.fetchListing(p)
+		if !ok {
+			return out
+		}
+		out[p] = l
+		if l.Kind == "nodes" {
+			for i, n := range l.Nodes {
+				if n.Count > 0 || len(p) < x.plan.Cfg.depth() {
+					queue = append(queue, p+fmt.Sprintf("%x", i))
+				}
+			}
+		}
+		if l.Kind == "items" && len(p) < 16 {
+			// descend along the live items to exercise longer prefixes (filtering at leaf level)
+			seen := map[string]bool{}
+			var live []refItem
+			for _, it := range l.Items {
+				if it.Ver > 0 {
+					live = append(live, it)
+				}
+			}
+			sort.Slice(live, func(i, j int) bool { return live[i].KeyHash < live[j].KeyHash })
+			for _, it := range live {
+				s := fmt.Sprintf("%016x", it.KeyHash)
+				np := s[:len(p)+1]
+				if !seen[np] && len(seen) < 2 {
+					seen[np] = true
+					queue = append(queue, np)
+				}
+			}
+		}
+	}
+	return out
+}
+
+func sortedListingKeys(m map[string]listing) []string {
+	var ks []string
+	for k := range m {
+		ks = append(ks, k)
+	}
+	sort.Strings(ks)
+	return ks
+}
